@@ -1,7 +1,7 @@
 """R-WRAPPER-ORDER (C20), R-METAKEY (C11, C20)."""
 import re
 
-from .prog import (AnalysisBroken, key, strip, walk, const_value, enum_name, edpe_blocks, block_nodes, tok_dkey, resolve_key)
+from .prog import (AnalysisBroken, key, strip, walk, const_value, enum_name, edpe_blocks, block_nodes, tok_dkey, resolve_key, single_assignment_locals)
 
 CONTROL_KEYS = {"baseheaderlevel", "epubheaderlevel", "htmlheaderlevel", "xhtmlheaderlevel", "latexheaderlevel",
                 "odfheaderlevel", "language", "latexmode", "quoteslanguage"}
@@ -172,6 +172,11 @@ def r_wrapper_order(P, chk):
             idx = [i2 for i2, a in enumerate(c["c"][1:]) if key_like(f, a, ())]
             if idx and idx[0] < len(h.params):
                 out.append((c, h, h.params[idx[0]][0]))
+                continue
+            # the whole metadata record is handed over and the helper compares its ->key
+            idx = [i2 for i2, a in enumerate(c["c"][1:]) if "meta" in ((strip(a) or {}).get("t") or "")]
+            if idx and idx[0] < len(h.params) and any(strcmp_lit(h, x, ()) is not None for x in h.walk()):
+                out.append((c, h, "\x00record"))
         return out
     lits = set()
     for x in pm.walk():
@@ -194,6 +199,13 @@ def r_wrapper_order(P, chk):
             l = strcmp_lit(f, t, kparams)
             if l is not None:
                 return l != K            # strcmp() is non-zero (true) when the strings differ
+            if t["k"] == "CallExpr" and f is pm:
+                # `if (helper(m, ..)) continue;` - the helper's result used directly as a condition
+                for c2, h2, pn2 in hs:
+                    if c2 is t:
+                        rv = ret_vals(h2, pn2, K)
+                        if rv is not None and rv and len({bool(v2) for v2 in rv}) == 1:
+                            return bool(next(iter(rv)))
             if t["k"] == "BinaryOperator" and t["op"] in ("==", "!="):
                 for x, y in ((t["c"][0], t["c"][1]), (t["c"][1], t["c"][0])):
                     cv = const_value(y)
@@ -437,20 +449,48 @@ def r_metakey(P, chk):
                 chk.violation(rid, "metakey:hash:%s:%s" % (f.name, arg[:30]), f.where(), "%s looks up the metadata hash with %s, which is "
                               "not in the stored key's normal form" % (f.name, why))
     chk.floor(rid, n, 40, "comparisons / lookups against stored metadata keys")
-    # API functions make sure metadata was detected before reading the stack
+    # API functions make sure metadata was detected before reading the stack: with "the stack is empty" decided true, no read of
+    # the stack is reachable except through a call that loads the metadata (mmd_engine_has_metadata, or a same-unit helper that
+    # cannot return without it when the stack is empty)
+    def empty(t_):
+        t2 = strip(t_)
+        if t2 is None:
+            return None
+        k2 = resolve_key(f_cur[0], t2).replace("(", "").replace(")", "").replace(" ", "")
+        if t2["k"] == "MemberExpr" and k2.endswith("metadata_stack->size"):
+            return False
+        if t2["k"] == "BinaryOperator" and t2["op"] in ("==", "!=", ">", "<=") and resolve_key(f_cur[0], t2["c"][0]).replace("(", "").replace(")", "").endswith("metadata_stack->size") \
+                and const_value(t2["c"][1]) == 0:
+            return t2["op"] in ("==", "<=")
+        return None
+    f_cur = [None]
+    mu = P.units["mmd.c"]
+    loaders = {"mmd_engine_has_metadata"}
+    for _ in range(2):
+        for h in mu.funcs.values():
+            if h.name in loaders:
+                continue
+            lc = [c for c in h.calls() if c.get("callee") in loaders and c.get("i") in h.cfg.positions()]
+            if not lc:
+                continue
+            f_cur[0] = h
+            blocked = {h.cfg.positions()[c["i"]][0] for c in lc}
+            if h.cfg.exit not in edpe_blocks(h, "?none", 0, extra_decide=empty, blocked=blocked):
+                loaders.add(h.name)
+    readers = {h.name for h in mu.funcs.values() if any(resolve_key(h, c["c"][1]).endswith("->metadata_stack") for c in h.calls("stack_peek_index"))}
     for fn in ("mmd_engine_metadata_keys", "mmd_engine_metavalue_for_key"):
         f = P.func(fn, "mmd.c")
-        hm = [c for c in f.calls("mmd_engine_has_metadata")]
-        reads = [c for c in f.calls("stack_peek_index") if resolve_key(f, c["c"][1]).endswith("->metadata_stack")]
-        okh = False
-        for h in hm:
-            for a in f.ancestors(h):
-                if a["k"] == "IfStmt" and "metadata_stack->size==0" in resolve_key(f, a["c"][0]).replace("(", "").replace(")", ""):
-                    if all(f.cfg.dominates(a["c"][0]["i"], r["i"]) for r in reads):
-                        okh = True
-        chk.obligation(rid, "%s checks for metadata (mmd_engine_has_metadata when the stack is empty) before reading the stack" % fn,
-                       okh and bool(reads))
-        if not (okh and reads):
+        f_cur[0] = f
+        pos = f.cfg.positions()
+        reads = [c for c in f.calls() if c.get("i") in pos and (
+            (c.get("callee") == "stack_peek_index" and resolve_key(f, c["c"][1]).endswith("->metadata_stack")) or
+            (c.get("callee") in readers and c.get("callee") != fn and c.get("callee") not in loaders))]
+        lc = [c for c in f.calls() if c.get("callee") in loaders and c.get("i") in pos]
+        blocked = {pos[c["i"]][0] for c in lc}
+        reach = edpe_blocks(f, "?none", 0, extra_decide=empty, blocked=blocked)
+        okh = bool(reads) and bool(lc) and all(pos[r["i"]][0] not in reach or pos[r["i"]][0] in blocked for r in reads)
+        chk.obligation(rid, "%s checks for metadata (mmd_engine_has_metadata when the stack is empty) before reading the stack" % fn, okh)
+        if not okh:
             chk.violation(rid, "metakey:order:%s" % fn, f.where(), "%s reads metadata_stack without first making sure the metadata "
                           "block was parsed" % fn)
 
@@ -629,15 +669,29 @@ def r_metascan(P, chk):
     T = Tables(P)
     n = 0
 
-    def line_vars(f, depth=0):
-        linevars = set()
+    def _cmp_line_vars(f):
+        out = set()
         for x in f.walk():
             if x["k"] == "BinaryOperator" and x["op"] in ("==", "!="):
                 for a, b in ((x["c"][0], x["c"][1]), (x["c"][1], x["c"][0])):
                     cv = const_value(b)
                     if key(a).endswith("->type") and cv is not None and 0 < cv < T.nterminal and T.name(cv).startswith("LINE_"):
-                        linevars.add(key(a)[:-len("->type")])
+                        out.add(key(a)[:-len("->type")])
+        return out
+
+    def line_vars(f, depth=0):
+        linevars = _cmp_line_vars(f)
         linevars |= _line_vars_sw(f)
+        # a token handed to a same-unit helper that dispatches on its line kind
+        if depth < 2:
+            for c in f.calls():
+                h = f.unit.funcs.get(c.get("callee") or "")
+                if h is None or h is f:
+                    continue
+                hv = _line_vars_sw(h) | {k2 for k2 in _cmp_line_vars(h)}
+                for i, prm in enumerate(h.params):
+                    if prm[0] in hv and 1 + i < len(c["c"]):
+                        linevars.add(key(c["c"][1 + i]))
         # a token parameter that every caller binds to one of its own line tokens
         if depth < 2:
             for i, prm in enumerate(f.params):
@@ -675,6 +729,11 @@ def r_metascan(P, chk):
         for c in calls:
             n += 1
             a = strip(c["c"][1])
+            if a is not None and a["k"] == "DeclRefExpr" and a.get("dk") == "Var":
+                # `const char * line_text = &source[line->start];` hoisted once
+                init = single_assignment_locals(f).get(a["n"])
+                if init is not None:
+                    a = strip(init)
             anchor = None
             if a is not None and a["k"] == "UnaryOperator" and a["op"] == "&":
                 sub = strip(a["c"][0])
